@@ -6,6 +6,7 @@ import Rpki.Proofs.SlurmLemmas
 import Rpki.Proofs.PrefixOrder
 import Rpki.Proofs.JsonTextTyped
 import Rpki.Proofs.JsonReadLemmas
+import Rpki.Proofs.JsonPrettyLemmas
 namespace Rpki.C15
 open Rpki.Slurm Rpki.Prefix Rpki.Consts
 
@@ -95,6 +96,12 @@ the writer model produces for a well-formed file back as that file — the state
 file to JSON and parsing it back gives an equal file", on octets in both directions. -/
 theorem from_str_to_string (f : SlurmFile) (hw : f.WF) (ht : JsonText.FileTextWF f) :
     JsonRead.readFile (JsonText.fileText f) = some f := JsonRead.readFile_fileText f hw ht
+
+/-- **`from_str` after `to_string_pretty`.** The pretty form (`serde_json`'s `PrettyFormatter`: every element
+and member on its own line, indented by two spaces per level, `"name": value`; `Model/JsonPretty.lean`, compared
+byte for byte with `SlurmFile::to_string_pretty`) is read back by the reader model as the file, too. -/
+theorem from_str_to_string_pretty (f : SlurmFile) (hw : f.WF) (ht : JsonText.FileTextWF f) :
+    JsonRead.readFile (JsonText.fileTextPretty f) = some f := JsonRead.readFile_fileTextPretty f hw ht
 
 /-- On what the writer produces, the serde_json reader model and the reference reader agree (for every tree). -/
 theorem readers_agree_on_written_text (j : Json) :
